@@ -13,7 +13,7 @@ RULE = ("Mode M: EVERY integer array of the stated shapes/alphabets: 1-D (axis=N
         "definitions; 3-D batch result[i] == result of slice i. non-trivial = distinct array with >=2 distinct non-zero levels")
 ASSUMPTIONS = [
     "weights fit in 63 bits at these sizes (stated precondition)",
-    "'first'/'last' on 3-D input and 1-D input with axis=0 are not claimed (behaviour not defined by the statement)",
+    "'first'/'last' on 1-D input with axis=0 are not claimed (behaviour not defined by the statement); on 3-D input they are batched like shadow/prio/rank (block by block along axis 0 of each block), which is what the unchanged library does on every array of the space",
     "3-D 'min'/'max' follow numpy axis semantics, 3-D 'shadow'/'prio'/'rank' are batched (as _vectors_from_prios relies on)",
 ]
 BOUNDS = {"quick": "as in rule", "thorough": "quick + 1-D length 6 over {-2..2}, 2-D 3x3 over {-1,0,1,2} (axis 0,1), 2x4 over {-2..2}, 3-D 2x2x3 over {-1,0,1}"}
@@ -249,9 +249,6 @@ def check_array(X, kind, acc, case, only=None):
                 continue
             acc.obs(method, axis, np.asarray(got).tolist())
             if kind == "3d":
-                if method in ("first", "last"):
-                    acc.n("not_claimed_3d_first_last")
-                    continue
                 if method in ("min", "max"):
                     want = np.max(X, axis=0) if method == "max" else None
                     if method == "min":
